@@ -1,4 +1,5 @@
 import ChipFiring.Theory.Txt
+import ChipFiring.Theory.TxtFile
 import ChipFiring.Theory.OrientRT
 import ChipFiring.Theory.Serial
 import Std.Data.String.ToInt
@@ -9,9 +10,13 @@ import Std.Data.String.ToInt
   TXT writers serialise): rebuilding a graph from its canonical edge list, a divisor from its
   degree map, a firing script from its net-firing map gives the object back; the decimal codec
   used for chip counts round-trips every integer.
-  NOT proved (partial): the text layers — CPython's `json`, the TXT tokenisation
-  (`strip`/`split`/`replace`), file I/O — and the damaged-file clause.  Those are runtime/library
-  behaviour; they are explored per generated file by fault enumeration in the correspondence run.
+  Also proved: the TXT text layer — field layer (`strip`/`split`/`replace`/`join`), record lines,
+  and the whole file for each of the four kinds (`txt_*_file_roundtrip`: the reader loops of
+  `read_txt` applied to the text `to_txt` writes return the constructor arguments the object was
+  written from), with `int()` and text-mode line splitting modelled.
+  NOT proved (partial): CPython's `json` text, the byte layer (encodings, `open`), and the
+  damaged-file clause.  Those are runtime/library behaviour; they are explored per generated file
+  by fault enumeration in the correspondence run.
 -/
 namespace CF.C15
 open CF Finset
@@ -147,5 +152,69 @@ theorem txt_record_roundtrip (names : List (List Char)) (k : Int)
     (hclean : ∀ f ∈ names, Txt.cleanField f = true) :
     Txt.parseFields (' ' :: Txt.joinFields (names ++ [k.repr.toList])) = names ++ [k.repr.toList] ∧
     k.repr.toInt? = some k := Txt.record_roundtrip names k hclean
+
+/-- **TXT graph files**: for any list of representable vertex names (possibly empty) and any edge
+    records over representable names, `read_txt(…, 'graph')` run on the text `to_txt` writes
+    reaches the constructor with exactly those names and edges.  (The constructor's own round trip
+    is `graph_dict_roundtrip`.) -/
+theorem txt_graph_file_roundtrip (names : List Txt.Str) (edges : List Txt.Edge)
+    (hn : ∀ f ∈ names, Txt.nameOK f = true)
+    (he : ∀ e ∈ edges, Txt.nameOK e.1 = true ∧ Txt.nameOK e.2.1 = true) :
+    Txt.readGraph (Txt.writeText (Txt.writeGraph names edges)) = some (names, edges) :=
+  Txt.readGraph_writeGraph names edges (fun f hf => (Txt.nameOK_iff f).mp (hn f hf))
+    (fun e h => ⟨(Txt.nameOK_iff _).mp (he e h).1, (Txt.nameOK_iff _).mp (he e h).2⟩)
+
+/-- **TXT divisor files**: names, edges and the `(vertex, chips)` records come back, any integers -/
+theorem txt_divisor_file_roundtrip (names : List Txt.Str) (edges : List Txt.Edge) (degs : List (Txt.Str × Int))
+    (hn : ∀ f ∈ names, Txt.nameOK f = true)
+    (he : ∀ e ∈ edges, Txt.nameOK e.1 = true ∧ Txt.nameOK e.2.1 = true)
+    (hd : ∀ r ∈ degs, Txt.nameOK r.1 = true) :
+    Txt.readDivisor (Txt.writeText (Txt.writeDivisor names edges degs)) = some (names, edges, degs) :=
+  Txt.readDivisor_write names edges degs (fun f hf => (Txt.nameOK_iff f).mp (hn f hf))
+    (fun e h => ⟨(Txt.nameOK_iff _).mp (he e h).1, (Txt.nameOK_iff _).mp (he e h).2⟩)
+    (fun r h => (Txt.nameOK_iff _).mp (hd r h))
+
+/-- **TXT orientation files**: names, edges and the `(source, sink)` records come back -/
+theorem txt_orientation_file_roundtrip (names : List Txt.Str) (edges : List Txt.Edge) (os : List (Txt.Str × Txt.Str))
+    (hn : ∀ f ∈ names, Txt.nameOK f = true)
+    (he : ∀ e ∈ edges, Txt.nameOK e.1 = true ∧ Txt.nameOK e.2.1 = true)
+    (ho : ∀ r ∈ os, Txt.nameOK r.1 = true ∧ Txt.nameOK r.2 = true) :
+    Txt.readOrientation (Txt.writeText (Txt.writeOrientation names edges os)) = some (names, edges, os) :=
+  Txt.readOrientation_write names edges os (fun f hf => (Txt.nameOK_iff f).mp (hn f hf))
+    (fun e h => ⟨(Txt.nameOK_iff _).mp (he e h).1, (Txt.nameOK_iff _).mp (he e h).2⟩)
+    (fun r h => ⟨(Txt.nameOK_iff _).mp (ho r h).1, (Txt.nameOK_iff _).mp (ho r h).2⟩)
+
+/-- **TXT firing-script files**: the writer lists the non-zero net firings; exactly those come back
+    as the dict handed to the constructor (which gives every vertex not listed 0 firings:
+    `script_dict_roundtrip`) -/
+theorem txt_script_file_roundtrip (names : List Txt.Str) (edges : List Txt.Edge) (fs : List (Txt.Str × Int))
+    (hn : ∀ f ∈ names, Txt.nameOK f = true)
+    (he : ∀ e ∈ edges, Txt.nameOK e.1 = true ∧ Txt.nameOK e.2.1 = true)
+    (hf : ∀ r ∈ fs, Txt.nameOK r.1 = true) (hnd : (fs.map (·.1)).Nodup) :
+    Txt.readScript (Txt.writeText (Txt.writeScript names edges fs)) =
+      some (names, edges, fs.filter fun r => r.2 != 0) :=
+  Txt.readScript_write names edges fs (fun f hf => (Txt.nameOK_iff f).mp (hn f hf))
+    (fun e h => ⟨(Txt.nameOK_iff _).mp (he e h).1, (Txt.nameOK_iff _).mp (he e h).2⟩)
+    (fun r h => (Txt.nameOK_iff _).mp (hf r h)) hnd
+
+/-- `int(str(k)) = k` for the model of Python's `int()` (what the readers apply to the last field) -/
+theorem txt_int_roundtrip (k : Int) : Txt.pyInt? k.repr.toList = some k := Txt.pyInt_repr k
+
+/-- non-vacuity: representable names exist (blanks inside, non-ASCII, digits, prefix look-alikes),
+    the hypotheses of the file theorems are met by a concrete divisor file, and the names the
+    format cannot represent are rejected by `nameOK` -/
+example : Txt.nameOK ['a', ' ', 'b'] = true ∧ Txt.nameOK ['é'] = true ∧ Txt.nameOK ['-', '7'] = true ∧
+    Txt.nameOK ['E', 'D', 'G', 'E'] = true ∧ Txt.nameOK [] = false ∧ Txt.nameOK ['a', ','] = false ∧
+    Txt.nameOK ['x', ':', 'y'] = false ∧ Txt.nameOK [' ', 'a'] = false ∧ Txt.nameOK ['a', '\n', 'b'] = false := by
+  decide
+
+example : Txt.readDivisor (Txt.writeText (Txt.writeDivisor [['a', ' ', 'b'], ['c']] [(['a', ' ', 'b'], ['c'], 3)]
+    [(['a', ' ', 'b'], -5), (['c'], 10 ^ 30)])) =
+    some ([['a', ' ', 'b'], ['c']], [(['a', ' ', 'b'], ['c'], 3)], [(['a', ' ', 'b'], -5), (['c'], 10 ^ 30)]) :=
+  txt_divisor_file_roundtrip _ _ _ (by decide) (by decide) (by decide)
+
+/-- the empty graph: written as a names line with an empty field, read back as no vertices (F8) -/
+example : Txt.readGraph (Txt.writeText (Txt.writeGraph [] [])) = some ([], []) :=
+  txt_graph_file_roundtrip [] [] (by simp) (by simp)
 
 end CF.C15
